@@ -24,7 +24,7 @@ CHUNK = {"quick": 40, "thorough": 200}
 PROBES = ["op_mask", "op_base64", "op_base64url", "op_netbios", "op_netbiosu", "op_prepend", "op_append", "empty_affix",
           "term_header", "term_parameter", "term_print", "term_uri_append", "uri_append_nonempty_initial_uri",
           "static_parameter", "static_header", "encoder_repeated", "three_build_blocks", "peer_unpadded_base64url",
-          "empty_payload", "binary_affix", "session_population", "transform_without_initial_request"]
+          "empty_payload", "binary_affix", "session_population", "transform_without_initial_request", "sibling_configuration"]
 RULE = ("seeded plans: 85% exchange plans - three programs (every ordering/repetition of the seven encoders up to length 6, "
         "prepend/append arguments incl. empty and binary, each termination kind, 1-3 build blocks, static headers/"
         "parameters) compiled to the binary setting encoding, 4-10 messages with payloads of 0-4096 bytes and arbitrary "
@@ -79,6 +79,9 @@ def _gen_any_program(rng, kind):
         else:
             used_print = used_print or t == "print"
             used_uri = used_uri or t == "uri_append"
+            if t == "uri_append" and rng.random() < 0.4:
+                # what is appended to the URI begins with a slash (or is just a slash-separated path)
+                steps.append(["prepend", hx(rng.choice([b"/", b"/" + _word(rng, 1, 6).encode(), b"//", b"/?"]))])
             steps.append([t])
     return steps
 
@@ -106,7 +109,7 @@ def generate(rng, tier, index):
         else:
             vals = {"id": hx(rng.choice([str(rng.getrandbits(31)).encode(), _payload(rng, 20)])), "output": hx(_payload(rng))}
         initial = {"none": rng.random() < 0.3,
-                   "uri": hx(rng.choice([b"", b"", b"/load", b"/a/b.php", _payload(rng, 8)])),
+                   "uri": hx(rng.choice([b"", b"", b"/load", b"/a/b.php", b"/", b"/api/", b"/x/y/", _payload(rng, 8)])),
                    "headers": [[hx(b"User-Agent"), hx(b"UA/1.0")]] if rng.random() < 0.6 else [],
                    "params": [[hx(b"z"), hx(b"1")]] if rng.random() < 0.3 else [],
                    "body": hx(rng.choice([b"", b"", b"old-body"]))}
@@ -134,18 +137,31 @@ def _sig(direction, kind, exc, sigtail, uri_nonempty):
     return ("C04", direction, kind) + tuple(sigtail)
 
 
-def execute(plan: dict) -> Result:
-    if plan.get("world") != "S-exchange":
-        r = _session.execute_session(plan, ID)
-        r.probes["session_population"] += 1
-        return r
+def _sibling(cfg):
+    import copy
+    sib = copy.deepcopy(cfg)
+
+    def other(b: bytes) -> bytes:
+        return bytes((c ^ 0x01) if (0x30 <= c <= 0x39 or 0x41 <= c <= 0x5A or 0x61 <= c <= 0x7A) and
+                     (0x30 <= (c ^ 0x01) <= 0x39 or 0x41 <= (c ^ 0x01) <= 0x5A or 0x61 <= (c ^ 0x01) <= 0x7A) else c for c in b)
+    for prog in ("get", "post", "server"):
+        for st in sib[prog]:
+            if st[0] in ("header", "parameter") and len(st) > 1:
+                st[1] = hx(other(unhx(st[1])))
+            elif st[0] in ("prepend", "append") and len(st) > 1 and st[1]:
+                st[1] = hx(bytes((c + 1) & 0xFF for c in unhx(st[1])))
+            elif st[0] in ("_header", "_parameter"):
+                sep = b": " if st[0] == "_header" else b"="
+                k, _, v = unhx(st[1]).partition(sep)
+                st[1] = hx(other(k) + sep + v)
+    return sib
+
+
+def _exchange(res, cfg, messages, probes):
     from dissect.cobaltstrike.beacon import BeaconConfig
     from dissect.cobaltstrike.c2 import C2Data, C2Http, ClientC2Data, HttpRequest, HttpResponse
-    res = Result()
-    cfg = plan["config"]
     bc = BeaconConfig(config_block(cfg))
-    res.cases = 0
-    with LightSeams(plan.get("run_seed", "0" * 16)):
+    if True:
         c2 = C2Http(bc, aes_key=b"k" * 16, hmac_key=b"h" * 16)
         tf = {"get": c2.transform_get, "post": c2.transform_submit, "server": c2.transform_response}
         for prog in ("get", "post", "server"):
@@ -172,7 +188,7 @@ def execute(plan: dict) -> Result:
             if len(encs) >= 2 or any(s[0] in ("header", "parameter", "uri_append") for s in steps):
                 res.nontrivial = True
         produced = []
-        for mi, m in enumerate(plan["messages"]):
+        for mi, m in enumerate(messages):
             prog = m["prog"]
             steps = cfg[prog]
             t = tf[prog]
@@ -306,6 +322,26 @@ def execute(plan: dict) -> Result:
                             f"{prog} message #{mi} no longer decodes to its data after later transform() calls on the same "
                             f"decoder: {str(back)[:200]} vs {str(want)[:200]}")
                 break
+
+
+def execute(plan: dict) -> Result:
+    if plan.get("world") != "S-exchange":
+        r = _session.execute_session(plan, ID)
+        r.probes["session_population"] += 1
+        return r
+    from dissect.cobaltstrike.beacon import BeaconConfig
+    from dissect.cobaltstrike.c2 import C2Data, C2Http, ClientC2Data, HttpRequest, HttpResponse
+    res = Result()
+    res.cases = 0
+    with LightSeams(plan.get("run_seed", "0" * 16)):
+        _exchange(res, plan["config"], plan["messages"], True)
+        if True:
+            # a sibling configuration in the same process: same program shapes, same argument LENGTHS, other names and
+            # other affix bytes - whatever the library remembers about the first one (compiled programs, placements) must
+            # not be applied to this one
+            sib = _sibling(plan["config"])
+            res.probes["sibling_configuration"] += 1
+            _exchange(res, sib, plan["messages"][:4], False)
     return res
 
 
